@@ -487,7 +487,8 @@ def unaryOk (cs : Bool) (op : UnOp) (e : Operand) (res : Operand) : Bool :=
   -- 6.5.3.2p2,4: pointer operand; the result designates the object/function (then 6.3.2.1 decay)
   | .deref =>
     (match e.ty with
-     | .ptr q b => res.ty == decayTy b q
+     | .ptr q b => res.ty == decayTy b q &&
+        (b.isFunc || (match b with | .arr .. => true | _ => false) || (res.qual == q && res.lvalue))
      | _ => false)
   -- 6.5.2.4, 6.5.3.1: modifiable lvalue of real or pointer type; the type of the operand
   | .preinc | .predec | .postinc | .postdec =>
